@@ -26,7 +26,7 @@ MIN_NONTRIVIAL = {'quick': 700, 'thorough': 25000}
 NCASES = {'quick': 1400, 'thorough': 44000}
 TIME_CAP = {'quick': 300, 'thorough': 3600}
 
-REQUIRED_CLASSES = ['staged-base', 'staged-base:units-only', 'staged-base:nodes', 'staged-base:nodes-and-units', 'alias:compare-then-reference', 'alias:import-then-option', 'alias:form-case', 'alias:form-bool-node', 'alias:form-condition', 'alias:ref-inject', 'alias:ref-import', 'alias:modify-source', 'source-local', 'source-remote', 'source-base',
+REQUIRED_CLASSES = ['sourced-file-defines-a-custom-unit', 'sourced-file-custom-unit:host-main-text', 'sourced-file-custom-unit:host-base-environment', 'staged-base', 'staged-base:units-only', 'staged-base:nodes', 'staged-base:nodes-and-units', 'alias:compare-then-reference', 'alias:import-then-option', 'alias:form-case', 'alias:form-bool-node', 'alias:form-condition', 'alias:ref-inject', 'alias:ref-import', 'alias:modify-source', 'source-local', 'source-remote', 'source-base',
                     'slice-index', 'slice-range', 'slice-string', 'slice-1d', 'slice-2d', 'slice-in-modification',
                     'host-own-unit', 'host-adopts-unit', 'injection-in-definition', 'injection-in-modification',
                     'injection-converted-into-definition-unit', 'injected-float', 'injected-int', 'injected-str',
@@ -85,6 +85,7 @@ def cases(rng, tier, shard, nshards, ctx):
             yield dict(alias=c17_alias.gen(rng))
             from vt.props import c17_base
             yield dict(stbase=c17_base.gen(rng))
+            yield dict(stbase=c17_base.gen_srcunit(rng))
 
 
 # ----------------------------------------------------------------------------- observing the real code
@@ -337,7 +338,7 @@ def run_case(case, ctx):
     if 'alias' in case or 'stbase' in case:
         from vt.props import c17_alias, c17_base
         try:
-            out = c17_alias.run(case, ctx, real_parse) if 'alias' in case else c17_base.run(case['stbase'], ctx, real_parse)
+            out = c17_alias.run(case, ctx, real_parse) if 'alias' in case else (c17_base.run_srcunit if case['stbase'].get('stage') == 'srcunit' else c17_base.run)(case['stbase'], ctx, real_parse)
         finally:
             ctx['keep'] = []
             leak = ctx['hyg'].check_restore()
